@@ -5,6 +5,7 @@ package cfgx
 
 import (
 	"go/ast"
+	"go/constant"
 	"go/token"
 	"go/types"
 
@@ -618,6 +619,10 @@ func (f *Func) MustAtInit(n ast.Node, init bool, gen func(Fact) bool, genStmt fu
 			preds[s.Index] = append(preds[s.Index], [2]int{int(p.Index), si})
 		}
 	}
+	// the do-while idiom `for done := false; !done; done = f() { ... }`: the loop condition
+	// holds on the first arrival, so the exit edge of the header is reached only from the post
+	// statement - the value on that edge is computed from the post predecessor alone
+	doWhile := f.doWhileHeaders()
 	for changed := true; changed; {
 		changed = false
 		for _, blk := range f.G.Blocks {
@@ -629,7 +634,25 @@ func (f *Func) MustAtInit(n ast.Node, init bool, gen func(Fact) bool, genStmt fu
 				v = false
 			}
 			for _, pr := range preds[blk.Index] {
-				if !edgeVal(f.G.Blocks[pr[0]], pr[1]) {
+				p := f.G.Blocks[pr[0]]
+				if post, isDW := doWhile[p.Index]; isDW && pr[1] == 1 {
+					// exit edge of a do-while header: as if entered from the post block only
+					saved := in[p.Index]
+					alt := true
+					for _, pp := range preds[p.Index] {
+						if int32(pp[0]) == post {
+							alt = edgeVal(f.G.Blocks[pp[0]], pp[1])
+						}
+					}
+					in[p.Index] = alt
+					ev := edgeVal(p, pr[1])
+					in[p.Index] = saved
+					if !ev {
+						v = false
+					}
+					continue
+				}
+				if !edgeVal(p, pr[1]) {
 					v = false
 				}
 			}
@@ -650,6 +673,69 @@ func (f *Func) MustAtInit(n ast.Node, init bool, gen func(Fact) bool, genStmt fu
 		}
 	}
 	return false
+}
+
+// doWhileHeaders finds the loop headers of `for x := <bool const>; x / !x; x = ... { body }`
+// whose condition is true on the first arrival and whose flag the body does not assign;
+// it maps the header block to its post block.
+func (f *Func) doWhileHeaders() map[int32]int32 {
+	out := map[int32]int32{}
+	for _, h := range f.G.Blocks {
+		if !h.Live || h.Kind != cfg.KindForLoop || len(h.Succs) != 2 {
+			continue
+		}
+		fs, ok := h.Stmt.(*ast.ForStmt)
+		if !ok || fs.Init == nil || fs.Cond == nil || fs.Post == nil {
+			continue
+		}
+		as, ok := fs.Init.(*ast.AssignStmt)
+		if !ok || as.Tok != token.DEFINE || len(as.Lhs) != 1 || len(as.Rhs) != 1 {
+			continue
+		}
+		id, ok := as.Lhs[0].(*ast.Ident)
+		if !ok {
+			continue
+		}
+		flag := f.Info.ObjectOf(id)
+		tv, ok := f.Info.Types[as.Rhs[0]]
+		if !ok || tv.Value == nil || tv.Value.Kind() != constant.Bool {
+			continue
+		}
+		initVal := constant.BoolVal(tv.Value)
+		cond := ast.Unparen(fs.Cond)
+		first := false
+		if u, ok := cond.(*ast.UnaryExpr); ok && u.Op == token.NOT {
+			if cid, ok := ast.Unparen(u.X).(*ast.Ident); ok && f.Info.ObjectOf(cid) == flag {
+				first = !initVal
+			}
+		} else if cid, ok := cond.(*ast.Ident); ok && f.Info.ObjectOf(cid) == flag {
+			first = initVal
+		}
+		if !first {
+			continue
+		}
+		// the body leaves the flag alone
+		touched := false
+		ast.Inspect(fs.Body, func(n ast.Node) bool {
+			if a2, ok := n.(*ast.AssignStmt); ok {
+				for _, l := range a2.Lhs {
+					if lid, ok := l.(*ast.Ident); ok && f.Info.ObjectOf(lid) == flag {
+						touched = true
+					}
+				}
+			}
+			return true
+		})
+		if touched {
+			continue
+		}
+		for _, p := range f.G.Blocks {
+			if p.Live && p.Kind == cfg.KindForPost && p.Stmt == h.Stmt {
+				out[h.Index] = p.Index
+			}
+		}
+	}
+	return out
 }
 
 // edgeImplies: taking the branch on which e has the given truth value establishes a fact
